@@ -32,7 +32,8 @@ pub fn budget(prop: &str, tier: &str) -> Budget {
     Budget {
         runs: (((if quick { q } else { t }) as f64) * scale).max(1.0) as u64,
         wall: Duration::from_secs(if quick { 150 } else { 1200 }),
-        per_seed: Duration::from_secs(if quick { 60 } else { 120 }),
+        // VERIF_WATCHDOG_MS exists to exercise the watchdog itself
+        per_seed: std::env::var("VERIF_WATCHDOG_MS").ok().and_then(|s| s.parse().ok()).map(Duration::from_millis).unwrap_or(Duration::from_secs(if quick { 60 } else { 120 })),
     }
 }
 
@@ -215,6 +216,8 @@ pub fn check(prop: &str, tier: &str) -> i32 {
             Ok((seed, Err(what))) => {
                 if what == "hang" {
                     agg.hangs.push(seed);
+                } else if what == "slow" {
+                    *agg.extra.entry("watchdog_timeouts_that_returned_on_a_second_attempt".into()).or_insert(0) += 1;
                 } else {
                     agg.harness_errors.push((seed, what));
                 }
@@ -289,10 +292,39 @@ fn worker_loop(prop: &str, first_seed: u64, runs: u64, per_seed: Duration, next:
             Err(timed_out) => {
                 let _ = child.kill();
                 let _ = child.wait();
-                let _ = tx.send((seed, Err(if timed_out { "hang".to_string() } else { "worker died (abort/crash)".to_string() })));
                 let (c, l) = spawn();
                 child = c;
                 lines = l;
+                if !timed_out {
+                    let _ = tx.send((seed, Err("worker died (abort/crash)".to_string())));
+                    continue;
+                }
+                // The watchdog reads the real clock, the only thing in a check that does: a run is
+                // deterministic, so a genuine spin or deadlock never returns on a second attempt either,
+                // while a stalled machine (every worker timing out at once) does. The seed is run again in the
+                // fresh worker with four times the allowance and only a second silence is a hang.
+                let sent = child.stdin.as_mut().map(|s| writeln!(s, "{seed}").and_then(|_| s.flush())).map(|r| r.is_ok()).unwrap_or(false);
+                match if sent { lines.recv_timeout(per_seed * 4).ok() } else { None } {
+                    Some(line) => {
+                        let _ = tx.send((seed, Err("slow".to_string())));
+                        match serde_json::from_str::<Value>(&line) {
+                            Ok(v) => {
+                                let _ = tx.send((seed, Ok(v)));
+                            }
+                            Err(e) => {
+                                let _ = tx.send((seed, Err(format!("bad worker output: {e}: {}", line.chars().take(200).collect::<String>()))));
+                            }
+                        }
+                    }
+                    None => {
+                        let _ = child.kill();
+                        let _ = child.wait();
+                        let _ = tx.send((seed, Err("hang".to_string())));
+                        let (c, l) = spawn();
+                        child = c;
+                        lines = l;
+                    }
+                }
             }
         }
     }
